@@ -222,7 +222,11 @@ func (w *oracleWorkload) Next(block int) []rig.Tx {
 			if w.reqFeed[id] == "" {
 				continue
 			}
-			switch rng.Intn(10) {
+			roll := rng.Intn(10)
+			if w.reqFeed[id] == "tka-stake" && roll < 3 {
+				roll = 9 // the exchange-rate feed other workloads price with is kept alive by construction
+			}
+			switch roll {
 			case 0:
 				w.run.Count("answer-withheld", 1)
 			case 1:
@@ -268,7 +272,11 @@ func (w *oracleWorkload) Next(block int) []rig.Tx {
 				role = "stranger"
 			}
 		}
-		switch rng.Intn(6) {
+		op := rng.Intn(6)
+		if name == "tka-stake" && op == 3 {
+			op = 0 // never paused: see above
+		}
+		switch op {
 		case 0, 1, 2:
 			out = append(out, r.Mk(actor, &orTag{Kind: "start", Feed: name, Role: role}, &oracletypes.MsgStartFeed{FeedName: name, Creator: actor.Addr.String()}))
 		case 3:
